@@ -75,6 +75,8 @@ func oracleFor(op *Sexp, res string) []string {
 		return []string{"panic: " + lastPanic}
 	}
 	switch op.head() {
+	case "descjson":
+		return oracleDescJSON(op, res)
 	case "jsonout":
 		return oracleJSONOut(op, res)
 	case "internseq":
